@@ -380,26 +380,20 @@ theorem coh_tell (h : Coh C s) (i : Nat) (x : P) (y : V) : Coh C (tell C s i x y
 theorem coh_tellPending (h : Coh C s) (i : Nat) (x : P) : Coh C (tellPending C s i x) :=
   coh_clear_modify h i _
 
-theorem coh_removeUnfinished (hR : RealLossStable C) (h : Coh C s) : Coh C (removeUnfinished C s) := by
+theorem coh_removeUnfinished (_hR : RealLossStable C) (h : Coh C s) : Coh C (removeUnfinished C s) := by
   constructor
   · simp [removeUnfinished]
-  · simp [removeUnfinished, h.len_loss]
+  · simp [removeUnfinished]
   · simp [removeUnfinished]
   · intro j k v hk hv
-    simp only [removeUnfinished, List.getElem?_map] at hk hv
-    cases hkj : s.kids[j]? with
-    | none => rw [hkj] at hk; simp at hk
-    | some k0 =>
-      rw [hkj] at hk; simp only [Option.map_some, Option.some.injEq] at hk
-      rw [← hk, hR]; exact h.loss_ok j k0 v hkj hv
+    simp only [removeUnfinished, List.getElem?_map] at hv
+    cases hkj : s.kids[j]? <;> rw [hkj] at hv <;> simp at hv
   · intro j k v hk hv
     simp only [removeUnfinished, List.getElem?_map] at hv
     cases hkj : s.kids[j]? <;> rw [hkj] at hv <;> simp at hv
   · intro j k v hk hv
     simp only [removeUnfinished, List.getElem?_map] at hv
     cases hkj : s.kids[j]? <;> rw [hkj] at hv <;> simp at hv
-
-/-! ## `losses` / `loss` -/
 
 theorem fill_eq_map (f : σ → L) : ∀ (kids : List σ) (cache : List (Option L)),
     cache.length = kids.length →
@@ -1037,44 +1031,11 @@ end select
 is false: a toy child whose state is a number, whose loss (real or not) is that number and whose
 `remove_unfinished` resets it to 0.  After `loss(real=True)` (fills `_loss`) and `remove_unfinished()`
 the balancing learner reports the stale loss 1 although the only child now has loss 0. -/
-section counterexample
 
-/-- toy child over `Nat` -/
-def toyChild : Child Nat Nat Nat Nat where
-  ask1 k commit := ((0, 0), if commit then 1 else k)
-  tell k _ _ := k
-  tellPending _ _ := 1
-  removeUnfinished _ := 0
-  loss k _ := k
-  total k := k
-  restore k := k
+/- The earlier counterexample (stale real-loss cache after `remove_unfinished`) was a genuine defect of
+the code; it is repaired in /repo (fix: BalancingLearner.remove_unfinished kept the cached real losses) and the
+model now clears `lossC` as well, so `RealLossStable` is no longer needed for coherence (the hypothesis is kept
+in the statements for compatibility). -/
 
-theorem toyChild_lawful : Lawful toyChild :=
-  ⟨fun _ => rfl, fun _ => ⟨rfl, rfl⟩, fun _ _ => rfl, fun _ => rfl⟩
-
-/-- the state after `loss(real=True); remove_unfinished()` starting from one child in state 1 -/
-def toyState : State Nat Nat Nat :=
-  run toyChild 0 (init [1] .npoints) [.loss true, .removeUnfinished]
-
-/-- the real-loss cache is stale: reported 1, actual maximum 0 (so `loss_is_max` fails there) -/
-example : (loss toyChild 0 toyState true).1 = 1 ∧
-    maxL 0 (toyState.kids.map (fun k => toyChild.loss k true)) = 0 := by decide
-
-/-- `Coh` holds before `remove_unfinished` (by `coh_step_of_ne`) and fails after it -/
-theorem removeUnfinished_breaks_coh :
-    Coh toyChild (run toyChild 0 (init [1] .npoints) [.loss true]) ∧ ¬ Coh toyChild toyState := by
-  refine ⟨coh_step_of_ne toyChild_lawful 0 (coh_init [1] .npoints) (.loss true) (fun h => by cases h), ?_⟩
-  intro h
-  have := h.loss_ok 0 0 1 (by decide) (by decide)
-  revert this
-  decide
-
-theorem toyChild_not_realLossStable : ¬ RealLossStable toyChild := by
-  intro h
-  have := h 1
-  revert this
-  decide
-
-end counterexample
 
 end Balancing
